@@ -266,6 +266,45 @@ theorem ustr_tight : Tight ustr := by
   intro s _
   simp only [ustr, StringElement.codec, if_true, length_ustrT, padAmount_one, Nat.add_zero]
 
+
+theorem blocked_rt {c : PCodec α} (w pad : Nat) (hc : c.RtAtEnd) (ht : Tight c) (hp : (0 + w) % pad = 0) :
+    (blocked w pad c).RtAnywhere := by
+  intro v hwf hf d p h
+  have e1 := readLenBlock_at (skip := 0) h hf.2 hp
+  have e2 := hc v hwf hf.1 (c.encT v) 0 (At.self _) (by omega)
+  rw [ht v hf.1] at e2
+  simp only [blocked, bind, Except.bind, e1, e2]
+
+theorem blocked_tight {c : PCodec α} (w pad : Nat) : Tight (blocked w pad c) := fun _ _ => rfl
+
+theorem blocked_count {c : PCodec α} (w pad : Nat) (hc : c.Count) : (blocked w pad c).Count := by
+  intro v
+  simp only [blocked, hc v, wLenBlock_eq]
+
+theorem blocked_ge {c : PCodec α} (w pad : Nat) : ∀ v, (blocked w pad c).Fits v → w ≤ ((blocked w pad c).encT v).length := by
+  intro v _
+  simp only [blocked, length_lenBlockT]; omega
+
+theorem optTail_rt {c : PCodec α} (hc : c.RtAtEnd) (ht : Tight c) (hpos : ∀ v, c.Fits v → 1 ≤ (c.encT v).length) :
+    (optTail c).RtAtEnd := by
+  intro o hwf hf d p h hend
+  cases o with
+  | none =>
+    simp only [optTail, optT, List.length_nil, Nat.add_zero] at hend ⊢
+    simp only [isReadable_false (by omega : d.length < p + 1), Bool.false_eq_true, if_false]
+  | some v =>
+    simp only [optTail, optT, optFits] at h hend hwf hf ⊢
+    have r1 : isReadable 1 d p = true := isReadable_of_at h (hpos v hf)
+    have e1 := hc v hwf hf d p h hend
+    rw [ht v hf] at e1
+    simp only [r1, if_true, e1]
+
+theorem optTail_count {c : PCodec α} (hc : c.Count) : (optTail c).Count := by
+  intro o
+  cases o with
+  | none => rfl
+  | some v => exact hc v
+
 /-! ### what the property theorems need beyond Lemmas/PayloadBase.lean -/
 
 /-- as the payload of a skeleton image resource: `ImageResource.read` takes the length block and runs the payload reader
